@@ -1,9 +1,11 @@
 CONSTANTS
   Dev = {}
   MaxLen = 7
+  Deep32 = FALSE
   MaxOct = 6
 SPECIFICATION Spec
 INVARIANT EmitDec
 INVARIANT EmitEnc
 INVARIANT EmitProbe
+INVARIANT EmitEncProbe
 CHECK_DEADLOCK FALSE
